@@ -9,11 +9,12 @@ ap = argparse.ArgumentParser()
 ap.add_argument("wt"); ap.add_argument("sub"); ap.add_argument("name"); ap.add_argument("prop")
 ap.add_argument("--tests", nargs="*", default=[]); ap.add_argument("--src", nargs="*", default=["src/Core/Random.cpp"])
 ap.add_argument("--libshark", action="store_true"); ap.add_argument("--needs", default="")
-ap.add_argument("--demo-runs", type=int, default=1); ap.add_argument("--tsan", action="store_true")
+ap.add_argument("--cxxflags", nargs="*", default=[]); ap.add_argument("--demo-runs", type=int, default=1); ap.add_argument("--tsan", action="store_true")
 a = ap.parse_args()
 wt, out = a.wt, os.path.join(a.wt, "out", a.sub)
 work = f"/var/tmp/seedwork-{a.name}"; os.makedirs(work, exist_ok=True)
 F = ["-std=c++11", "-O1", "-g", "-DNDEBUG", "-w", "-fopenmp", f"-I{wt}/include", "-I/repo/_build/include"]
+F += ["-D" + d for d in a.cxxflags]
 L = ["-lboost_serialization", "-lboost_system", "-lboost_filesystem", "-lopenblas"]
 def sh(cmd, **kw):
     return subprocess.run(cmd, capture_output=True, text=True, **kw)
